@@ -67,8 +67,13 @@ def finding_matches(ent, v):
 
 def merge(shards):
     tot = dict(stats={}, cells={}, violations=[], counters={}, samples={}, unit_nontrivial={},
-               harness_errors=[], raised={})
+               harness_errors=[], raised={}, ctor_seen={}, ctor_built={})
     for d in shards:
+        for c, ps in d.get("ctor_seen", {}).items():
+            for k, vs in ps.items():
+                tot["ctor_seen"].setdefault(c, {}).setdefault(k, set()).update(vs)
+        for c, n in d.get("ctor_built", {}).items():
+            tot["ctor_built"][c] = tot["ctor_built"].get(c, 0) + n
         for k, st in d["stats"].items():
             t = tot["stats"].setdefault(k, dict(evals=0, held=0, violated=0, inconclusive=0,
                                                 trivial=0, worst=0.0, worst_measure=None, tol=None))
@@ -253,6 +258,11 @@ def main(argv=None):
                 known_findings_not_reproduced=not_reproduced,
                 unlisted_violations=len(unlisted),
                 inconclusive_reasons=incon,
+                # what the constructors were actually given (recorded at ExactSolver.__init__): per class the number of
+                # solvers built and, per parameter, the number of distinct explicitly passed values (capped at 60)
+                constructors_observed={c: dict(built=tot["ctor_built"].get(c, 0),
+                                               distinct_values={k: len(v) for k, v in sorted(tot["ctor_seen"].get(c, {}).items())})
+                                       for c in sorted(tot["ctor_built"])},
                 shards=nshards, shards_dead=len(dead),
                 verdict={0: "held on what was observed", 1: "violated", 2: "inconclusive"}[rc],
                 repo=os.environ.get("EXACTPACK_REPO", "/repo"),
